@@ -1,5 +1,6 @@
 import CnvVerif.Driver.Json
 import CnvVerif.Model.Reference
+import CnvVerif.Model.ReferenceExt
 open Lean
 namespace CnvVerif.Drv.Reference
 open CnvVerif.Drv CnvVerif.Ref
@@ -27,6 +28,24 @@ def getOut (j : Json) : R (String × Int × Int × String × Rat × Rat × Rat) 
   let a ← getArr j
   pure (← getStr a[0]!, ← getInt a[1]!, ← getInt a[2]!, ← getStr a[3]!, ← getRat a[4]!, ← getRat a[5]!, ← getRat a[6]!)
 
+/-- {"fasta_gc": [..]|null, "fasta_rm": [..]|null, "file_gc": [..]|null, "edge": [..], "perm": [..], "wing": n} -/
+def getKeys (j : Json) : R BlockKeys := do
+  let keys (k : String) : R (Option (List Rat)) := match optFld j k with
+    | some v => do pure (some (← getList getRat v))
+    | none => pure none
+  pure { fastaGc := ← keys "fasta_gc", fastaRm := ← keys "fasta_rm", fileGc := ← keys "file_gc",
+         edge := ← getList getRat (← fld j "edge"),
+         perm := ← getList getNat (← fld j "perm"), wing := ← getNat (← fld j "wing") }
+
+/-- [[id, true|false|null], ..]: `guess_xx`'s answer per file -/
+def getInf (j : Json) : R (List (String × Option Bool)) :=
+  getList (fun x => do
+    let a ← getArr x
+    let b ← (match a[1]! with
+      | Json.null => pure none
+      | v => do pure (some (← getBool v)))
+    pure (← getStr a[0]!, b)) j
+
 def handleReference (op : String) (inp : Json) (impl : Option Json) : R (Option Json) := do
   match op with
   | "reference" =>
@@ -36,10 +55,37 @@ def handleReference (op : String) (inp : Json) (impl : Option Json) : R (Option 
     let anti ← (match optFld inp "antitargets" with
       | some j => do pure (some (← getList getSample j))
       | none => pure none)
-    let sexes ← getList (fun x => do
+    let sexes0 ← getList (fun x => do
       let a ← getArr x
       pure (← getStr a[0]!, ← getBool a[1]!)) (← fld inp "sexes")
-    let res := doReference hapX par sexes tgt anti
+    -- round 4: the sexes as `do_reference` determines them from the per-file answers of `guess_xx`
+    let sexes ← (match optFld inp "sex_inputs" with
+      | some sj => do
+        let given ← (match optFld sj "given" with
+          | some v => do pure (some (← getBool v))
+          | none => pure none)
+        pure (resolveSexes given (← getList getStr (← fld sj "target_ids")) (← getInf (← fld sj "t_inf"))
+                (← getInf (← fld sj "a_inf")))
+      | none => pure sexes0)
+    -- round 4: the bias corrections inside the model
+    -- "corr": {"do_gc", "do_edge", "do_rmask", "t": keys, "a": keys}
+    let emptyKeys : BlockKeys := { fastaGc := none, fastaRm := none, fileGc := none, edge := [], perm := [], wing := 1 }
+    let (res, edgeDev) ← (match optFld inp "corr" with
+      | none => pure (doReference hapX par sexes tgt anti, (0 : Rat))
+      | some cj => do
+        let doGc ← getBool (← fld cj "do_gc")
+        let doEdge ← getBool (← fld cj "do_edge")
+        let doRmask ← getBool (← fld cj "do_rmask")
+        let kT ← getKeys (← fld cj "t")
+        let kA ← (match optFld cj "a" with | some aj => getKeys aj | none => pure emptyKeys)
+        -- largest deviation of the supplied (float) edge-bias keys from the exact formula of `get_edge_bias`
+        let dev : Rat := match (sortSamples tgt).head? with
+          | some f =>
+            let exact := edgeBias (f.rows.map (fun r => toS r r.log2)) Generated.INSERT_SIZE
+            if exact.length == kT.edge.length then ((kT.edge.zip exact).map (fun p => absQ' (p.1 - p.2))).foldl max 0
+            else 1
+          | none => 0
+        pure (doReferenceOpts doGc doEdge doRmask kT kA hapX par sexes tgt anti, dev))
     let outJ : Json := match res with
       | .ok rows => arrJ (rows.map fun o =>
           arrJ [strJ o.chrom, intJ o.s, intJ o.e, strJ o.gene, ratJ o.log2, ratJ o.depth, scaleJ o.spread])
@@ -85,7 +131,12 @@ def handleReference (op : String) (inp : Json) (impl : Option Json) : R (Option 
            | none => false) && absQ' r.2.2.2.2.2.2 ≤ 1/1000
         pure (arrJ (((if binsOk then [] else ["reference_has_exactly_the_bins"]) ++
                      (if levelsOk then [] else ["sex_levels_and_zero_spread"])).map strJ)))
-    pure (some (obj [("out", outJ), ("spec", spec)]))
+    -- did the corrections change any value (non-triviality of a corrections-on case)?
+    let corrEffect : Bool := match optFld inp "corr", res, doReference hapX par sexes tgt anti with
+      | some _, .ok a, .ok b => a.map (·.log2) != b.map (·.log2)
+      | _, _, _ => false
+    pure (some (obj [("out", outJ), ("spec", spec), ("edge_dev", ratJ edgeDev), ("corr_effect", boolJ corrEffect),
+                     ("sexes", arrJ (sexes.map fun p => arrJ [strJ p.1, boolJ p.2]))]))
   | "flat_reference" =>
     let hapX ← getBool (← fld inp "hapX")
     let par ← getOptStr (← fld inp "par")
